@@ -54,8 +54,8 @@ fn squeeze(v: &[String]) -> Vec<String> {
 impl Prop for C14 {
     fn cases(&self, tier: Tier) -> u64 {
         match tier {
-            Tier::Quick => 4000,
-            Tier::Thorough => 300_000,
+            Tier::Quick => 24_000,
+            Tier::Thorough => 1_500_000,
         }
     }
 
